@@ -251,6 +251,10 @@ type tuple struct {
 	Fault   string `json:"fault"` // "" = broker error code; cut | garbage-size | wrong-correlation | drop
 	CutAt   int    `json:"cut_at"`
 	Next    string `json:"next"`
+	// Site "apiversions": the error code is placed in the answer to the ApiVersions request that the first operation
+	// sends implicitly to negotiate its version (Field "empty-list": the broker also lists no APIs, as brokers do
+	// that reject the request's version).
+	Site string `json:"site,omitempty"`
 }
 
 func init() { ev.Register("tuple", func(tb ev.TB, t tuple) { runTuple(tb, t) }) }
@@ -315,13 +319,23 @@ func runTuple(tb ev.TB, t tuple) (delivered bool, firstClass string) {
 		act.CutResponse, act.CutResponseAt = true, t.CutAt
 	case "drop":
 		act.DropResponse = true
+	case "no-response":
+		act.NoResponse = true // the request is applied, the answer never comes, the connection stays open: the deadline ends the wait
 	case "garbage-size":
 		act.RawResponse = []byte{0x7f, 0xff, 0xff, 0xf0, 0, 0, 0, 1, 0, 0}
 	case "wrong-correlation":
 		bad := int32(0x7ead_beef)
 		act.CorrOverride = &bad
 	}
-	a.arm(first.API, act)
+	if t.Site == "apiversions" {
+		if t.Field == "empty-list" {
+			act.ErrorField = ""
+			act.Mutate = func(body map[string]any) { body["ApiKeys"] = []any{} }
+		}
+		a.arm(18, act)
+	} else {
+		a.arm(first.API, act)
+	}
 	wait := 1500 * time.Millisecond
 	if t.Fault != "" {
 		wait = 400 * time.Millisecond // stalled reads end at the deadline
@@ -429,6 +443,37 @@ func allTuples() []tuple {
 	return out
 }
 
+// apiVersionsTuples: the implicit ApiVersions exchange as the failing step, for the operations that negotiate their
+// version, followed by operations that do and a few that do not.  Small enough to be run completely in both tiers.
+func apiVersionsTuples() []tuple {
+	negotiating := []string{"ReadPartitions", "ReadBatch", "ReadMessage", "WriteMessages", "WriteCompressed", "Controller", "Brokers"}
+	others := []string{"ReadLastOffset", "Heartbeat", "ApiVersions"}
+	var out []tuple
+	for _, p := range profiles {
+		for _, o := range negotiating {
+			for _, f := range []string{"top", "empty-list"} {
+				for _, c := range []int16{35, 7, 41} {
+					for _, n := range append(append([]string{}, negotiating...), others...) {
+						out = append(out, tuple{Profile: p.Name, Op: o, Field: f, Code: c, Next: n, Site: "apiversions"})
+					}
+				}
+			}
+		}
+	}
+	return out
+}
+
+// TestApiVersionsErrors runs apiVersionsTuples completely.
+func TestApiVersionsErrors(t *testing.T) {
+	for i, tp := range apiVersionsTuples() {
+		ok, cls := runTuple(t, tp)
+		ev.Case(fmt.Sprintf("%+v", tp), ok, "op_"+tp.Op, "next_"+tp.Next, "profile_"+tp.Profile, "field_"+tp.Field, "first_"+cls, "site_apiversions")
+		if i%97 == 1 {
+			ev.Sample(tp)
+		}
+	}
+}
+
 // TestBrokerErrors runs the enumerated product (quick: a slice that contains
 // every (profile, op, field) with rotating codes and next operations).
 func TestBrokerErrors(t *testing.T) {
@@ -452,6 +497,9 @@ func TestBrokerErrors(t *testing.T) {
 		ok, cls := runTuple(t, tp)
 		n++
 		labels := []string{"op_" + tp.Op, "next_" + tp.Next, "profile_" + tp.Profile, "field_" + tp.Field, "first_" + cls}
+		if tp.Site != "" {
+			labels = append(labels, "site_"+tp.Site)
+		}
 		ev.Case(fmt.Sprintf("%+v", tp), ok, labels...)
 		if ok {
 			delivered[tp.Op]++
@@ -490,7 +538,7 @@ func TestTransportFaults(t *testing.T) {
 			Profile: rapid.SampledFrom([]string{"low", "mid", "high"}).Draw(t, "profile"),
 			Op:      ops[rapid.IntRange(0, len(ops)-1).Draw(t, "op")].Name,
 			Next:    ops[rapid.IntRange(0, len(ops)-1).Draw(t, "next")].Name,
-			Fault:   rapid.SampledFrom([]string{"cut", "cut", "drop", "garbage-size", "wrong-correlation"}).Draw(t, "fault"),
+			Fault:   rapid.SampledFrom([]string{"cut", "cut", "drop", "no-response", "no-response", "garbage-size", "wrong-correlation"}).Draw(t, "fault"),
 		}
 		if tp.Fault == "cut" {
 			tp.CutAt = rapid.IntRange(0, 60).Draw(t, "cutAt")
